@@ -403,7 +403,7 @@ impl Prop for C10 {
     }
     fn cases(&self, tier: Tier) -> u32 {
         match tier {
-            Tier::Quick => 3000,
+            Tier::Quick => 8000,
             Tier::Thorough => 100_000,
         }
     }
